@@ -146,6 +146,8 @@ func childMain(args []string) int {
 		s = &upgradeSaver{}
 	case "leases":
 		s = &leaseSaver{}
+	case "leasesreset":
+		s = &leaseSaver{reset: true}
 	case "filter":
 		s = &filterSaver{}
 	case "filterfail":
@@ -360,6 +362,11 @@ type leaseSaver struct {
 	// direct: call dbStore itself (to learn its error) instead of onNotify.
 	direct  bool
 	lastErr error
+	// reset: save 1 is the other operation that stores the database, "reset
+	// leases" (what POST /control/dhcp/reset_leases runs): every lease is
+	// dropped and the database stored; its complete new version is the
+	// document without leases.  Saves 0 and 2 are ordinary lease changes.
+	reset bool
 }
 
 func (s *leaseSaver) prepare(dir string) (err error) {
@@ -399,6 +406,9 @@ func (s *leaseSaver) save(gen, _ int, calib string) error {
 	var n, pad int
 	if _, err := fmt.Sscanf(calib, "%d:%d", &n, &pad); err != nil {
 		return fmt.Errorf("bad calib %q", calib)
+	}
+	if s.reset && gen == 1 {
+		return s.vs.Reset()
 	}
 	s.vs.SetLeases("g"+strconv.Itoa(gen), n, pad)
 	if s.direct {
